@@ -57,6 +57,26 @@ func counterIncrements(phi *ssa.Phi, start func(ssa.Value) bool) ([]*ssa.BinOp, 
 	return incs, nStart == 1 && len(incs) > 0
 }
 
+// fieldStoresAny finds every store to any field of struct type typeName.
+func fieldStoresAny(fns []*ssa.Function, typeName string) []fieldStore {
+	var out []fieldStore
+	for _, fn := range fns {
+		for _, b := range fn.Blocks {
+			for _, in := range b.Instrs {
+				st, ok := in.(*ssa.Store)
+				if !ok {
+					continue
+				}
+				fa, ok := st.Addr.(*ssa.FieldAddr)
+				if ok && namedOf(fa.X.Type()) == typeName {
+					out = append(out, fieldStore{fn, st, fa})
+				}
+			}
+		}
+	}
+	return out
+}
+
 func isZeroConst(v ssa.Value) bool {
 	k, ok := constInt(v)
 	return ok && k == 0
